@@ -257,3 +257,35 @@ func zzH_C12_drag() {
 	}
 	verifReach("drag-scanned")
 }
+
+
+// an archive entry header inside the data stream with ANY size member (negative, huge), followed by more stream bytes
+func zzH_C12_archiveHeader() {
+	root := verifFSRoot()
+	verifFSBegin()
+	t := newTransfer(&zzSink12{}, nil, false, nil)
+	t.transferConfig.Timeout = 0
+	t.transferConfig.Protocol = 4
+	t.transferConfig.Directory = true
+	top := &sourceFile{PathID: 0, RelPath: []string{"d"}, IsDir: true, Archive: true}
+	w, _, err := t.createDirOrFile(root, top, false)
+	verifAssume(err == nil)
+	verifAssume(w != nil)
+	ent := &sourceFile{PathID: 0, RelPath: []string{"d", "f"}, IsDir: verifNondetBool()}
+	ent.Size = int64(verifNondetInt())
+	js, err := ent.marshalSourceFile()
+	verifAssume(err == nil)
+	stream := []byte(encodeString(js) + "\n")
+	stream = append(stream, zzSymBytes12(verifNondetRange(0, verifBound("N")))...)
+	cut := verifNondetRange(1, len(stream))
+	err = writeAll(w, stream[:cut])
+	if err == nil && cut < len(stream) {
+		err = writeAll(w, stream[cut:])
+	}
+	w.Close()
+	if err == nil {
+		verifReach("header-accepted")
+	} else {
+		verifReach("header-refused")
+	}
+}
